@@ -280,6 +280,16 @@ theorem violation_uncatchable (cfg : Cfg) (c' c : Conf) (k : Viol) (s : St)
     (hin : Within cfg c' c) (hv : c'.viol cfg k s) : c.viol cfg k s :=
   hin.viol hv
 
+/-- Conversely the list of call sites `Sub` is complete, and violations have exactly three sources:
+whenever an invocation of any of the ten functions ends in a violation, there is an invocation in
+its dynamic extent at which one of the three limit checks tripped (`Origin`: the call counter in
+`callUser`, the depth check or the tail-iteration check in `tramp`) with the same kind and the same
+state — from there it travelled out unchanged.  No native and no language construct produces,
+changes or drops a violation. -/
+theorem violation_only_from_limits (cfg : Cfg) (c : Conf) (k : Viol) (s : St) (hv : c.viol cfg k s) :
+    ∃ c', Within cfg c' c ∧ Origin cfg c' k s :=
+  viol_origin hv
+
 /-- The two error handlers do not see a violation: `if_error(a, b)` and `is_error(a)` with `a`
 ending in a violation end in that violation (state unchanged, `b` not evaluated) — at the level of
 the natives and of the call expressions. -/
